@@ -49,7 +49,7 @@ var (
 	corpus   = flag.String("corpus", "", "corpus file: <plan tree>\\t<root tree> per line")
 	known    = flag.String("known", "", "known_findings.json")
 	nworkers = flag.Int("workers", 12, "implementation worker subprocesses")
-	dev      = flag.String("dev", "f", "deviations the current tree is expected to have: c lt/lte/gt/gte dispatch on the unevaluated first argument, d float division by zero gives Inf, n cond list value is nil, l plan literals are shared, f comparisons through float64, a a cond list value is the plan's own list; - none")
+	dev      = flag.String("dev", "-", "deviations the current tree is expected to have: c lt/lte/gt/gte dispatch on the unevaluated first argument, d float division by zero gives Inf, n cond list value is nil, l plan literals are shared, f comparisons through float64, a a cond list value is the plan's own list; - none")
 	isWorker = flag.Bool("worker", false, "run as implementation worker (internal)")
 	dump     = flag.Int("dump", 0, "print every n-th case with the implementation's and the model's answer (debugging)")
 )
